@@ -13,6 +13,7 @@
 //   | exhausted | error <what>
 // pid codes: -1 invalid, 0 e-, 1 e+, 2 gamma, 3 mu-, 4 mu+ (InteractorHostTestBase order)
 #include "../../../harness/common.hh"
+#include <map>
 
 #include "corecel/cont/Span.hh"
 #include "corecel/data/StackAllocator.hh"
@@ -207,8 +208,7 @@ class Fix : public InteractorHostTestBase
     std::shared_ptr<RelativisticBremModel> rb_, rb_lpm_;
     std::shared_ptr<CombinedBremModel> cb_;
     std::shared_ptr<LivermorePEModel> lpe_;
-    std::shared_ptr<AtomicRelaxationParams> relax_[2];
-    double relax_cut_[2] = {-1, -1};
+    std::map<std::pair<int, double>, std::shared_ptr<AtomicRelaxationParams>> relax_;
     HostVal<AtomicRelaxStateData> relax_states_;
     HostRef<AtomicRelaxStateData> relax_states_ref_;
     std::shared_ptr<CoulombScatteringModel> coulomb_;
@@ -449,8 +449,8 @@ Interaction run_case(Case const& c, verif::ReplayEngine& rng, Fix*& used)
                 f.lpe_->host_ref(), relaxation, el, f.particle_track(), cv, f.dir_, f.secondary_allocator());
             return interact(rng);
         }
-        int ri = v - 1;
-        if (!f.relax_[ri] || f.relax_cut_[ri] != c.cut())
+        auto& relax = f.relax_[{v, c.cut()}];
+        if (!relax)
         {
             AtomicRelaxationReader rd(data_path.c_str(), data_path.c_str());
             AtomicRelaxationParams::Input inp;
@@ -459,10 +459,9 @@ Interaction run_case(Case const& c, verif::ReplayEngine& rng, Fix*& used)
             inp.particles = f.particle_params();
             inp.load_data = rd;
             inp.is_auger_enabled = (v == 2);
-            f.relax_[ri] = std::make_shared<AtomicRelaxationParams>(std::move(inp));
-            f.relax_cut_[ri] = c.cut();
+            relax = std::make_shared<AtomicRelaxationParams>(std::move(inp));
         }
-        auto const& rp = f.relax_[ri]->host_ref();
+        auto const& rp = relax->host_ref();
         f.relax_states_ = {};
         resize(&f.relax_states_, rp, 1);
         f.relax_states_ref_ = f.relax_states_;
